@@ -26,7 +26,7 @@ Proof.
   inversion Ha as [|? ? Hn Hd]; subst. constructor.
   - intro Hi. apply in_app_or in Hi. destruct Hi as [Hi|Hi]; [contradiction|].
     exact (Hab x (or_introl eq_refl) Hi).
-  - apply IH; auto. intros y Hy. apply Hab. now right.
+  - apply IH; auto; intros y Hy; apply Hab; now right.
 Qed.
 
 Lemma firstn_add {A} (a b : nat) (l : list A) : firstn a l ++ firstn b (skipn a l) = firstn (a + b) l.
@@ -128,7 +128,7 @@ Section PagingProofs.
     destruct (serve_page l p) as [|x items] eqn:Eit.
     - (* nothing on this page *)
       cbn [is_nil yield_new fold_left fst snd]. split; auto.
-      simpl in Hlen. assert (length l <= p * K) by (unfold K in *; lia).
+      cbn [length] in Hlen. assert (length l <= p * K) by (unfold K in *; lia).
       rewrite firstn_ge_all by auto. rewrite firstn_ge_all; auto. unfold K in *. nia.
     - cbn [is_nil]. rewrite <- Eit in *. clear Eit.
       rewrite union_set_fresh by auto.
@@ -158,13 +158,15 @@ Section PagingProofs.
   Qed.
 End PagingProofs.
 
+Ltac divfacts x d := pose proof (Nat.div_mod x d); pose proof (Nat.mod_upper_bound x d).
+
 Lemma pages_announced_le n : pages_announced n <= n.
-Proof. unfold pages_announced, K. destruct n; simpl; [reflexivity|]. lia. Qed.
+Proof. unfold pages_announced, K. divfacts (n + 8 - 1) 8. lia. Qed.
 
 Lemma pages_announced_old_le n : pages_announced_old n <= n.
 Proof.
   unfold pages_announced_old, K. destruct (Nat.eqb_spec n 0); [lia|].
-  change (8 + 1) with 9. lia.
+  change (8 + 1) with 9. divfacts n 9. lia.
 Qed.
 
 Section PagingResults.
@@ -184,16 +186,16 @@ Section PagingResults.
     NoDup l -> length l <= K * (MAX_VALUE_PAGES + 1) -> delivered eqb l = l.
   Proof.
     intros Hnd Hle. rewrite delivered_firstn by auto. apply firstn_ge_all.
-    unfold pages_announced, K, MAX_VALUE_PAGES in *. simpl in Hle |- *.
-    change (4 * 8) with 32. change (8 - 1) with 7. lia.
+    unfold pages_announced, K, MAX_VALUE_PAGES in *.
+    change (4 * 8) with 32 in *. divfacts (length l + 8 - 1) 8. lia.
   Qed.
 
   Theorem paging_cap_exceeded (l : list A) :
     NoDup l -> K * (MAX_VALUE_PAGES + 1) < length l -> length (delivered eqb l) = K * (MAX_VALUE_PAGES + 1).
   Proof.
     intros Hnd Hlt. rewrite delivered_firstn by auto. rewrite firstn_length.
-    unfold pages_announced, K, MAX_VALUE_PAGES in *. simpl in Hlt |- *.
-    change (4 * 8) with 32. lia.
+    unfold pages_announced, K, MAX_VALUE_PAGES in *.
+    change (4 * 8) with 32 in *. divfacts (length l + 8 - 1) 8. lia.
   Qed.
 
   Theorem paging_complete_shuffled (stored shuffled : list A) :
@@ -218,11 +220,12 @@ Section PagingResults.
   Proof.
     intro Hnd. rewrite delivered_old_firstn by auto. unfold good_count_old. rewrite Nat.leb_le.
     unfold pages_announced_old, K. change (8 + 1) with 9.
+    divfacts (length l) 9.
     destruct (Nat.eqb_spec (length l) 0) as [E0|E0].
     - rewrite E0. destruct l; [|discriminate]. simpl. split; auto. intros _. lia.
     - split.
-      + intro H. apply (f_equal (@length A)) in H. rewrite firstn_length in H. lia.
-      + intro H. apply firstn_ge_all. lia.
+      + intro Hq. apply (f_equal (@length A)) in Hq. rewrite firstn_length in Hq. lia.
+      + intro Hq. apply firstn_ge_all. lia.
   Qed.
 
   Theorem paging_old_withholds (l : list A) :
@@ -230,7 +233,1134 @@ Section PagingResults.
   Proof.
     intros Hnd Hg. rewrite delivered_old_firstn by auto. rewrite firstn_length.
     unfold good_count_old in Hg. apply Nat.leb_gt in Hg.
-    unfold pages_announced_old, K. change (8 + 1) with 9.
+    unfold pages_announced_old, K. change (8 + 1) with 9. divfacts (length l) 9.
     destruct (Nat.eqb_spec (length l) 0) as [E0|E0]; [rewrite E0 in Hg; simpl in Hg; lia|]. lia.
   Qed.
 End PagingResults.
+
+(* ------------------------------------------------------------------------------------------ *)
+(* D. finder bookkeeping                                                                       *)
+(* ------------------------------------------------------------------------------------------ *)
+Lemma memN_In x l : memN x l = true <-> In x l.
+Proof. apply (mem_In N.eqb). intros; apply N.eqb_eq. Qed.
+Lemma memN_notIn x l : memN x l = false <-> ~ In x l.
+Proof. apply (mem_notIn N.eqb). intros; apply N.eqb_eq. Qed.
+
+Lemma addN_In x y l : In y (addN x l) <-> y = x \/ In y l.
+Proof.
+  unfold addN, add_set. fold (memN x l). destruct (memN x l) eqn:E.
+  - apply memN_In in E. split; [now right|]. intros [->|H]; auto.
+  - rewrite in_app_iff. simpl. split; intros [H|H]; auto. destruct H as [->|[]]; auto.
+Qed.
+Lemma addN_NoDup x l : NoDup l -> NoDup (addN x l).
+Proof.
+  intro H. unfold addN, add_set. fold (memN x l). destruct (memN x l) eqn:E; auto.
+  apply memN_notIn in E. apply NoDup_app_intro; auto.
+  - constructor; [intros []|constructor].
+  - intros y Hy [->|[]]. contradiction.
+Qed.
+Lemma addN_length_fresh x l : ~ In x l -> length (addN x l) = S (length l).
+Proof.
+  intro H. apply memN_notIn in H. unfold addN, add_set. fold (memN x l). rewrite H.
+  rewrite app_length. simpl. lia.
+Qed.
+Lemma addN_length_le x l : length l <= length (addN x l).
+Proof.
+  unfold addN, add_set. fold (memN x l). destruct (memN x l); auto. rewrite app_length. lia.
+Qed.
+Lemma addN_length_ub x l : length (addN x l) <= S (length l).
+Proof.
+  unfold addN, add_set. fold (memN x l). destruct (memN x l); auto. rewrite app_length. simpl. lia.
+Qed.
+Lemma addN_nonempty x l : addN x l <> [].
+Proof.
+  unfold addN, add_set. fold (memN x l). destruct (memN x l) eqn:E.
+  - apply memN_In in E. destruct l; [contradiction|discriminate].
+  - destruct l; discriminate.
+Qed.
+
+Lemma removeN_In x y l : In y (removeN x l) -> In y l.
+Proof. unfold removeN, remove_set. rewrite filter_In. tauto. Qed.
+Lemma removeN_NoDup x l : NoDup l -> NoDup (removeN x l).
+Proof. apply NoDup_filter. Qed.
+Lemma removeN_length x l : NoDup l -> length l <= S (length (removeN x l)).
+Proof.
+  unfold removeN, remove_set. induction l as [|y l IH]; intro H; simpl; [lia|].
+  inversion H as [|? ? Hn Hd]; subst. destruct (N.eqb_spec x y) as [->|Ne]; simpl.
+  - (* the removed element: it does not occur in the tail *)
+    assert (E : filter (fun y0 => negb (y =? y0)%N) l = l).
+    { clear -Hn. induction l as [|z l IH]; simpl; auto.
+      destruct (N.eqb_spec y z) as [->|Nz]; simpl.
+      - exfalso. apply Hn. now left.
+      - f_equal. apply IH. intro Hi. apply Hn. now right. }
+    rewrite E. lia.
+  - specialize (IH Hd). lia.
+Qed.
+
+(* field lemmas *)
+Lemma ins_active_In p q l : In q (ins_active p l) <-> q = p \/ In q l.
+Proof.
+  induction l as [|r l IH]; simpl.
+  - intuition.
+  - destruct (pdist p <? pdist r)%N; simpl; [intuition|]. rewrite IH. intuition.
+Qed.
+
+Lemma add_active_fields st p f b :
+  let st' := add_active st p f b in
+  f_contacted st' = f_contacted st /\ f_running st' = f_running st /\ f_on st' = f_on st /\
+  f_yielded st' = f_yielded st /\ f_blob st' = f_blob st /\ f_pages st' = f_pages st /\
+  f_disc st' = f_disc st /\ f_sched st' = f_sched st /\ f_seeds st' = f_seeds st /\
+  (forall q, In q (f_active st') -> q = p \/ In q (f_active st)) /\
+  (forall q, In q (f_active st) -> In q (f_active st')).
+Proof.
+  unfold add_active. cbv zeta.
+  destruct (negb f && b); [repeat split; auto|].
+  destruct (memN (pid p) (f_contacted st)); [repeat split; auto|].
+  destruct (negb (in_active (pid p) (f_active st)) && has_id p && negb (self_id p)) eqn:E;
+    [|repeat split; auto].
+  unfold set_active; cbn. repeat split; auto.
+  - intros q Hq. now apply ins_active_In in Hq.
+  - intros q Hq. apply ins_active_In. now right.
+Qed.
+
+Lemma add_contacts_fields cs : forall st,
+  let st' := add_contacts st cs in
+  f_contacted st' = f_contacted st /\ f_running st' = f_running st /\ f_on st' = f_on st /\
+  f_yielded st' = f_yielded st /\ f_blob st' = f_blob st /\ f_pages st' = f_pages st /\
+  f_disc st' = f_disc st /\ f_sched st' = f_sched st /\ f_seeds st' = f_seeds st /\
+  (forall q, In q (f_active st') -> In (pid q) (peers_of_contacts cs) \/ In q (f_active st)) /\
+  (forall q, In q (f_active st) -> In q (f_active st')).
+Proof.
+  unfold add_contacts. induction cs as [|[c b] cs IH]; intro st; cbn [fold_left].
+  - repeat split; auto.
+  - specialize (IH (add_active st c false b)). cbv zeta in IH.
+    destruct IH as (H1 & H2 & H3 & H4 & H5 & H6 & H7 & H8 & H9 & H10 & H11).
+    destruct (add_active_fields st c false b) as (G1 & G2 & G3 & G4 & G5 & G6 & G7 & G8 & G9 & G10 & G11).
+    cbn [fst snd] in *. cbv zeta.
+    repeat split; try congruence.
+    + intros q Hq. destruct (H10 q Hq) as [Hi|Hi].
+      * left. simpl. now right.
+      * destruct (G10 q Hi) as [->|Hj]; [left; simpl; now left|now right].
+    + intros q Hq. apply H11. now apply G11.
+Qed.
+
+Lemma total_pages_set k l :
+  fold_right (fun kv a => snd kv + a) 0 (assoc_set_nat k (S (assoc_nat k l)) l)
+  = S (fold_right (fun kv a => snd kv + a) 0 l).
+Proof.
+  induction l as [|[k' v] l IH]; simpl; auto.
+  destruct (N.eqb_spec k' k); simpl; auto. rewrite IH. lia.
+Qed.
+
+Lemma assoc_set_nat_keys k v l :
+  forall x, In x (map fst (assoc_set_nat k v l)) <-> x = k \/ In x (map fst l).
+Proof.
+  induction l as [|[k' v'] l IH]; intro x; simpl.
+  - intuition.
+  - destruct (N.eqb_spec k' k) as [->|Ne]; simpl; [intuition|]. rewrite IH. intuition.
+Qed.
+
+Lemma assoc_set_nat_NoDup k v l : NoDup (map fst l) -> NoDup (map fst (assoc_set_nat k v l)).
+Proof.
+  induction l as [|[k' v'] l IH]; simpl; intro H.
+  - constructor; [intros []|constructor].
+  - inversion H as [|? ? Hn Hd]; subst. destruct (N.eqb_spec k' k) as [->|Ne]; simpl.
+    + constructor; auto.
+    + constructor; auto. rewrite assoc_set_nat_keys. intros [->|Hi]; auto.
+Qed.
+
+Lemma assoc_set_nat_vals k v l k0 v0 :
+  In (k0, v0) (assoc_set_nat k v l) -> (k0 = k /\ v0 = v) \/ In (k0, v0) l.
+Proof.
+  induction l as [|[k' v'] l IH]; simpl.
+  - intros [H|[]]. inversion H; auto.
+  - destruct (N.eqb_spec k' k) as [->|Ne]; simpl.
+    + intros [H|H]; [inversion H; auto|auto].
+    + intros [H|H]; [auto|]. destruct (IH H); auto.
+Qed.
+
+Ltac inv_con := constructor; unfold total_pages in *.
+
+Ltac conj_split := repeat match goal with |- _ /\ _ => split end.
+
+Ltac fcbn := cbn [f_active f_contacted f_running f_on f_yielded f_blob f_pages f_disc f_sched f_seeds fst snd
+                    schedule set_active set_on_running set_paging set_blob].
+Ltac fcbn_in H := cbn [f_active f_contacted f_running f_on f_yielded f_blob f_pages f_disc f_sched f_seeds fst snd
+                    schedule set_active set_on_running set_paging set_blob] in H.
+
+Section FinderInv.
+  Variable prm : fparams.
+  Variable c : nat.
+  Hypothesis Hcap : fp_cap prm = Some c.
+
+  Record finv (st : fstate) (U : list N) : Prop := {
+    inv_nd : NoDup (f_contacted st);
+    inv_cU : incl (f_contacted st) U;
+    inv_aU : forall q, In q (f_active st) -> In (pid q) U;
+    inv_sched : f_sched st <= f_seeds st + length (f_contacted st) + total_pages st;
+    inv_pk : NoDup (map fst (f_pages st));
+    inv_pU : incl (map fst (f_pages st)) U;
+    inv_pc : forall k v, In (k, v) (f_pages st) -> v <= c;
+    inv_run : length (f_running st) <= ALPHA + f_seeds st
+  }.
+
+  Lemma finv_mono st U U' : incl U U' -> finv st U -> finv st U'.
+  Proof.
+    intros Hi [a b d e f g h i]. constructor; auto.
+    - eapply incl_tran; eauto.
+    - eapply incl_tran; eauto.
+  Qed.
+
+  Lemma finv_add_active st U p f b : In (pid p) U -> finv st U -> finv (add_active st p f b) U.
+  Proof.
+    intros Hp [a b' d e f' g h i].
+    destruct (add_active_fields st p f b) as (G1 & G2 & G3 & G4 & G5 & G6 & G7 & G8 & G9 & G10 & G11).
+    unfold total_pages in *. inv_con; rewrite ?G1, ?G2, ?G6, ?G8, ?G9; auto.
+    intros q Hq. destruct (G10 q Hq) as [->|Hi]; auto.
+  Qed.
+
+  Lemma finv_add_contacts st U cs : incl (peers_of_contacts cs) U -> finv st U -> finv (add_contacts st cs) U.
+  Proof.
+    intros Hp [a b' d e f' g h i].
+    destruct (add_contacts_fields cs st) as (G1 & G2 & G3 & G4 & G5 & G6 & G7 & G8 & G9 & G10 & G11).
+    unfold total_pages in *. inv_con; rewrite ?G1, ?G2, ?G6, ?G8, ?G9; auto.
+    intros q Hq. destruct (G10 q Hq) as [Hi|Hi]; auto.
+  Qed.
+
+  Lemma finv_reset st U p : finv st U -> finv (reset_closest st p) U.
+  Proof.
+    intros [a b d e f g h i]. unfold reset_closest, set_active, total_pages in *. inv_con; fcbn; auto.
+    intros q Hq. apply filter_In in Hq. apply d. tauto.
+  Qed.
+
+  (* the loop of _search_round *)
+  Lemma round_loop_inv l : forall idx st added outs st' added' outs' U,
+    round_loop l idx st added outs = (st', added', outs') ->
+    (forall q, In q l -> In (pid q) U) -> finv st U ->
+    finv st' U /\ f_active st' = f_active st /\ f_on st' = f_on st /\ f_seeds st' = f_seeds st /\
+    f_yielded st' = f_yielded st /\ f_blob st' = f_blob st /\
+    length (f_running st') <= Nat.max (length (f_running st)) ALPHA /\
+    (f_running st <> [] -> f_running st' <> []) /\
+    (added' = added /\ st' = st \/ f_running st' <> []) /\
+    (forall x, In x (f_contacted st) -> In x (f_contacted st')) /\
+    f_pages st' = f_pages st /\
+    (forall o, In o outs' -> In o outs \/ exists x, o = OSched x).
+  Proof.
+    induction l as [|p l IH]; intros idx st added outs st' added' outs' U Hr Hl Hinv; cbn [round_loop] in Hr.
+    - inversion Hr; subst. conj_split; auto. lia.
+    - assert (Hl' : forall q, In q l -> In (pid q) U) by (intros; apply Hl; now right).
+      destruct (memN (pid p) (f_contacted st)) eqn:Ec; [eapply IH; eauto|].
+      destruct (ALPHA <=? length (f_running st)) eqn:Ea; [inversion Hr; subst; conj_split; auto; lia|].
+      destruct (K + length (f_running st) <? idx) eqn:Ek; [inversion Hr; subst; conj_split; auto; lia|].
+      destruct (self_id p); [eapply IH; eauto|].
+      destruct (self_addr p); [eapply IH; eauto|].
+      apply Nat.leb_gt in Ea. apply memN_notIn in Ec.
+      assert (Hinv2 : finv (schedule st (pid p) false) U).
+      { destruct Hinv as [a b d e f g h i]. unfold schedule, total_pages in *. inv_con; fcbn; auto.
+        - now apply addN_NoDup.
+        - intros x Hx. apply addN_In in Hx. destruct Hx as [->|Hx]; auto. apply Hl. now left.
+        - rewrite addN_length_fresh by auto. lia.
+        - pose proof (addN_length_ub (pid p) (f_running st)). lia. }
+      specialize (IH _ _ _ _ _ _ _ U Hr Hl' Hinv2).
+      destruct IH as (I1 & I2 & I3 & I4 & I5 & I6 & I7 & I8 & I9 & I10 & I11 & I12).
+      fcbn_in I2; fcbn_in I3; fcbn_in I4; fcbn_in I5; fcbn_in I6; fcbn_in I7; fcbn_in I8; fcbn_in I11.
+      conj_split; auto.
+      + pose proof (addN_length_ub (pid p) (f_running st)). lia.
+      + intros _. apply I8. apply addN_nonempty.
+      + right. apply I8. apply addN_nonempty.
+      + intros x Hx. apply I10. fcbn. apply addN_In. now right.
+      + intros o Ho. destruct (I12 o Ho) as [Hi|Hi]; auto. apply in_app_or in Hi.
+        destruct Hi as [Hi|[<-|[]]]; eauto.
+  Qed.
+
+  Lemma put_result_fields st good fin st' outs :
+    put_result prm st good fin = (st', outs) ->
+    f_active st' = f_active st /\ f_contacted st' = f_contacted st /\ f_running st' = f_running st /\
+    f_on st' = f_on st /\ f_pages st' = f_pages st /\ f_sched st' = f_sched st /\ f_seeds st' = f_seeds st /\
+    f_blob st' = f_blob st /\ (fin = true -> In OFinish outs).
+  Proof.
+    unfold put_result. cbv zeta. intro H. inversion H; subst; clear H.
+    destruct (is_nil _); conj_split; auto; intros ->; apply in_or_app; right; now left.
+  Qed.
+
+  Lemma finv_put_result st U good fin st' outs :
+    put_result prm st good fin = (st', outs) -> finv st U -> finv st' U.
+  Proof.
+    intros H [a b d e f g h i]. apply put_result_fields in H.
+    destruct H as (G1 & G2 & G3 & G4 & G5 & G6 & G7 & G8 & _).
+    unfold total_pages in *. inv_con; rewrite ?G1, ?G2, ?G3, ?G5, ?G6, ?G7; auto.
+  Qed.
+
+  Lemma exhausted_fields st good st' outs :
+    exhausted prm st good = (st', outs) ->
+    f_active st' = f_active st /\ f_contacted st' = f_contacted st /\ f_running st' = f_running st /\
+    f_on st' = f_on st /\ f_pages st' = f_pages st /\ f_sched st' = f_sched st /\ f_seeds st' = f_seeds st /\
+    f_blob st' = f_blob st /\ In OFinish outs.
+  Proof.
+    unfold exhausted. destruct (fp_kind prm).
+    - intro H. apply put_result_fields in H. intuition.
+    - intro H. inversion H; subst. conj_split; auto. now left.
+  Qed.
+
+  Lemma search_round_inv st good st' outs U :
+    search_round prm st good = (st', outs) -> finv st U ->
+    finv st' U /\ f_on st' = f_on st /\
+    length (f_running st') <= Nat.max (length (f_running st)) ALPHA /\
+    (f_running st' = [] -> In OFinish outs) /\
+    (forall x, In x (f_contacted st) -> In x (f_contacted st')) /\
+    f_pages st' = f_pages st /\ f_seeds st' = f_seeds st.
+  Proof.
+    unfold search_round. intros H Hinv.
+    destruct (round_loop (f_active st) 0 st 0 []) as [[st1 added] outs1] eqn:Er.
+    pose proof (round_loop_inv _ _ _ _ _ _ _ _ U Er (inv_aU _ _ Hinv) Hinv)
+      as (I1 & I2 & I3 & I4 & I5 & I6 & I7 & I8 & I9 & I10 & I11 & I12).
+    destruct (Nat.eqb added 0 && is_nil (f_running st1)) eqn:Ex.
+    - destruct (exhausted prm st1 good) as [st2 o2] eqn:Ee. inversion H; subst; clear H.
+      pose proof (exhausted_fields _ _ _ _ Ee) as (G1 & G2 & G3 & G4 & G5 & G6 & G7 & G8 & G9).
+      conj_split.
+      + destruct I1 as [a b d e f g h i]. unfold total_pages in *.
+        inv_con; rewrite ?G1, ?G2, ?G3, ?G5, ?G6, ?G7; auto.
+      + congruence.
+      + rewrite G3. auto.
+      + intros _. apply in_or_app. now right.
+      + rewrite G2. auto.
+      + congruence.
+      + congruence.
+    - inversion H; subst; clear H. conj_split; auto.
+      intro Hn. exfalso. destruct I9 as [[-> _]|Hne]; [|contradiction].
+      rewrite Hn in Ex. simpl in Ex. discriminate.
+  Qed.
+
+  Lemma finv_set_on_running st U on r :
+    length r <= length (f_running st) -> finv st U -> finv (set_on_running st on r) U.
+  Proof.
+    intros Hr [a b d e f g h i]. unfold set_on_running, total_pages in *. inv_con; fcbn; auto. lia.
+  Qed.
+
+  Lemma removeN_length_le x l : length (removeN x l) <= length l.
+  Proof.
+    unfold removeN, remove_set. induction l as [|y l IH]; simpl; auto.
+    destruct (negb (x =? y)%N); simpl; lia.
+  Qed.
+
+  Lemma seeds_fold sl : forall st outs st' outs' U,
+    fold_left (fun so p =>
+          if has_id p then (add_active (fst so) p true false, snd so)
+          else (schedule (fst so) (pid p) true, snd so ++ [OSched (pid p)])) sl (st, outs) = (st', outs') ->
+    incl (map pid sl) U -> finv st U -> finv st' U.
+  Proof.
+    induction sl as [|p sl IH]; intros st outs st' outs' U H Hi Hinv; cbn [fold_left] in H.
+    - inversion H; subst; auto.
+    - assert (Hp : In (pid p) U) by (apply Hi; now left).
+      assert (Hi' : incl (map pid sl) U) by (intros x Hx; apply Hi; now right).
+      cbn [fst snd] in H. destruct (has_id p).
+      + eapply IH; eauto. now apply finv_add_active.
+      + eapply IH; eauto.
+        destruct Hinv as [a b d e f g h i]. unfold schedule, total_pages in *. inv_con; fcbn; auto.
+        * now apply addN_NoDup.
+        * intros x Hx. apply addN_In in Hx. destruct Hx as [->|Hx]; auto.
+        * pose proof (addN_length_le (pid p) (f_contacted st)). lia.
+        * pose proof (addN_length_ub (pid p) (f_running st)). lia.
+  Qed.
+
+  Theorem fstep_inv st ev st' outs tag U :
+    fstep prm st ev = (st', outs, tag) -> finv st U -> finv st' (U ++ mentioned_ev ev).
+  Proof.
+    intros H Hinv.
+    assert (HU : incl U (U ++ mentioned_ev ev)) by (apply incl_appl, incl_refl).
+    assert (HM : incl (mentioned_ev ev) (U ++ mentioned_ev ev)) by (apply incl_appr, incl_refl).
+    pose proof (finv_mono _ _ _ HU Hinv) as Hinv'.
+    destruct ev; cbn [fstep] in H.
+    - (* EInit *)
+      match type of H with (let '(_, _) := ?f in _) = _ => destruct f as [s1 o1] eqn:Ef end.
+      inversion H; subst; clear H. eapply seeds_fold; eauto.
+    - (* EStart *)
+      destruct (search_round prm _ good) as [s1 o1] eqn:Es. inversion H; subst; clear H.
+      eapply search_round_inv in Es; [apply Es|]. apply finv_set_on_running; auto.
+    - (* EDone *)
+      assert (Hs : finv (set_on_running st (f_on st) (removeN p (f_running st))) (U ++ mentioned_ev (EDone p good))).
+      { apply finv_set_on_running; auto. apply removeN_length_le. }
+      destruct (f_on st).
+      + destruct (search_round prm _ good) as [s1 o1] eqn:Es. inversion H; subst; clear H.
+        eapply search_round_inv in Es; [apply Es|]. exact Hs.
+      + inversion H; subst; auto.
+    - inversion H; subst. now apply finv_reset.
+    - inversion H; subst. auto.
+    - unfold aclose in H. inversion H; subst. apply finv_set_on_running; auto. simpl. lia.
+    - (* ENodeReply *)
+      assert (Hs : finv (add_contacts (add_active st p false selfbad) contacts)
+                        (U ++ mentioned_ev (ENodeReply p selfbad contacts checked found_key good))).
+      { apply finv_add_contacts; [intros x Hx; apply HM; simpl; now right|].
+        apply finv_add_active; auto. apply HM. simpl. now left. }
+      destruct checked; [|inversion H; subst; auto].
+      destruct (found_key && negb (fp_key_is_self prm)); [|inversion H; subst; auto].
+      destruct (put_result prm _ good true) as [s1 o1] eqn:Ep. inversion H; subst; clear H.
+      eapply finv_put_result; eauto.
+    - (* EValueReply *)
+      set (sc := if is_nil raw then (DOk, []) else scan_values raw []) in H.
+      destruct sc as [verdict items].
+      set (U' := U ++ mentioned_ev (EValueReply p selfbad raw pages contacts checked)) in *.
+      assert (Hp : In (pid p) U') by (apply HM; simpl; now left).
+      (* the paging part *)
+      set (st1 := if negb (is_nil items) then _ else st) in H.
+      assert (H1 : finv st1 U').
+      { subst st1. destruct (negb (is_nil items)); auto.
+        destruct (page_step eqc (fp_cap prm) _ items pages) as [nxt again] eqn:Eps.
+        unfold page_step in Eps. cbn [pg disc] in Eps.
+        destruct (is_nil items); [inversion Eps; subst|].
+        { destruct Hinv' as [a b d e f g h i]. unfold set_paging, total_pages in *. inv_con; fcbn; auto. }
+        destruct (Nat.eqb _ _); [|inversion Eps; subst].
+        2:{ destruct Hinv' as [a b d e f g h i]. unfold set_paging, total_pages in *. inv_con; fcbn; auto. }
+        destruct ((K <=? length items) && (assoc_nat (pid p) (f_pages st) <? page_limit (fp_cap prm) pages)) eqn:Eadv;
+          inversion Eps; subst; clear Eps.
+        2:{ destruct Hinv' as [a b d e f g h i]. unfold set_paging, total_pages in *. inv_con; fcbn; auto. }
+        apply andb_prop in Eadv. destruct Eadv as [_ Elt]. apply Nat.ltb_lt in Elt.
+        rewrite Hcap in Elt. cbn [page_limit] in Elt.
+        destruct Hinv' as [a b d e f g h i]. unfold set_paging, total_pages in *. inv_con; cbn [f_contacted f_active f_sched f_seeds f_pages f_running pg]; auto.
+        - now apply removeN_NoDup.
+        - intros x Hx. apply b. eapply removeN_In; eauto.
+        - rewrite total_pages_set. pose proof (removeN_length (pid p) _ a). lia.
+        - now apply assoc_set_nat_NoDup.
+        - intros x Hx. apply assoc_set_nat_keys in Hx. destruct Hx as [->|Hx]; auto.
+        - intros k v Hkv. apply assoc_set_nat_vals in Hkv. destruct Hkv as [[-> ->]|Hkv]; [lia|eauto]. }
+      assert (H2 : finv (add_contacts (add_active st1 p false selfbad) contacts) U').
+      { apply finv_add_contacts; [intros x Hx; apply HM; simpl; now right|]. now apply finv_add_active. }
+      destruct verdict.
+      + inversion H; subst. exact Hinv'.
+      + destruct checked; [|inversion H; subst; auto].
+        destruct (negb (is_nil items)); [|inversion H; subst; auto].
+        destruct (yield_new eqc _ items) as [seen fresh]. inversion H; subst; clear H.
+        destruct H2 as [a b d e f g h i]. unfold set_blob, total_pages in *. inv_con; fcbn; auto.
+      + destruct checked; [|inversion H; subst; auto].
+        destruct (negb (is_nil items)); [|inversion H; subst; auto].
+        destruct (yield_new eqc _ items) as [seen fresh]. inversion H; subst; clear H.
+        destruct H2 as [a b d e f g h i]. unfold set_blob, total_pages in *. inv_con; fcbn; auto.
+    - unfold aclose in H. inversion H; subst. apply finv_set_on_running; auto. simpl. lia.
+  Qed.
+
+  Definition seeds_ev (ev : fev) : nat :=
+    match ev with EInit sl => length (filter (fun p => negb (has_id p)) sl) | _ => 0 end.
+  Definition is_vreply (ev : fev) : bool :=
+    match ev with EValueReply _ _ _ _ _ _ => true | _ => false end.
+
+  Lemma seeds_fold_fields sl : forall st outs st' outs',
+    fold_left (fun so p =>
+          if has_id p then (add_active (fst so) p true false, snd so)
+          else (schedule (fst so) (pid p) true, snd so ++ [OSched (pid p)])) sl (st, outs) = (st', outs') ->
+    f_seeds st' = f_seeds st + length (filter (fun p => negb (has_id p)) sl) /\
+    f_pages st' = f_pages st /\ (forall x, In x (f_contacted st) -> In x (f_contacted st')).
+  Proof.
+    induction sl as [|p sl IH]; intros st outs st' outs' H; cbn [fold_left] in H.
+    - inversion H; subst. simpl. conj_split; auto.
+    - cbn [fst snd] in H. cbn [filter]. destruct (has_id p); cbn [negb].
+      + apply IH in H. destruct H as (H1 & H2 & H3).
+        destruct (add_active_fields st p true false) as (G1 & G2 & G3 & G4 & G5 & G6 & G7 & G8 & G9 & _).
+        rewrite G9 in H1. rewrite G6 in H2. rewrite G1 in H3. conj_split; auto.
+      + apply IH in H. destruct H as (H1 & H2 & H3). fcbn_in H1. fcbn_in H2. fcbn_in H3.
+        cbn [length]. conj_split; auto; [lia|]. intros x Hx. apply H3. apply addN_In. now right.
+  Qed.
+
+  Theorem fstep_aux st ev st' outs tag U :
+    fstep prm st ev = (st', outs, tag) -> finv st U ->
+    f_seeds st' = f_seeds st + seeds_ev ev /\
+    (is_vreply ev = false -> f_pages st' = f_pages st /\ (forall x, In x (f_contacted st) -> In x (f_contacted st'))).
+  Proof.
+    intros H Hinv. destruct ev; cbn [fstep] in H; cbn [seeds_ev is_vreply].
+    - match type of H with (let '(_, _) := ?f in _) = _ => destruct f as [s1 o1] eqn:Ef end.
+      inversion H; subst; clear H. apply seeds_fold_fields in Ef. destruct Ef as (E1 & E2 & E3). auto.
+    - destruct (search_round prm _ good) as [s1 o1] eqn:Es. inversion H; subst; clear H.
+      eapply search_round_inv in Es; [|apply finv_set_on_running; [|exact Hinv]; auto].
+      destruct Es as (_ & _ & _ & _ & E5 & E6 & E7). fcbn_in E5. fcbn_in E6. fcbn_in E7.
+      split; [lia|]. auto.
+    - destruct (f_on st).
+      + destruct (search_round prm _ good) as [s1 o1] eqn:Es. inversion H; subst; clear H.
+        eapply search_round_inv in Es; [|apply finv_set_on_running; [|exact Hinv]; apply removeN_length_le].
+        destruct Es as (_ & _ & _ & _ & E5 & E6 & E7). fcbn_in E5. fcbn_in E6. fcbn_in E7.
+        split; [lia|]. auto.
+      + inversion H; subst. fcbn. split; [lia|]. auto.
+    - inversion H; subst. unfold reset_closest. fcbn. split; [lia|]. auto.
+    - inversion H; subst. split; [lia|]. auto.
+    - unfold aclose in H. inversion H; subst. fcbn. split; [lia|]. auto.
+    - destruct (add_contacts_fields contacts (add_active st p false selfbad))
+        as (G1 & G2 & G3 & G4 & G5 & G6 & G7 & G8 & G9 & _).
+      destruct (add_active_fields st p false selfbad) as (A1 & A2 & A3 & A4 & A5 & A6 & A7 & A8 & A9 & _).
+      cbv zeta in *.
+      assert (Hb : f_seeds (add_contacts (add_active st p false selfbad) contacts) = f_seeds st + 0 /\
+                   (false = false -> f_pages (add_contacts (add_active st p false selfbad) contacts) = f_pages st /\
+                    (forall x, In x (f_contacted st) -> In x (f_contacted (add_contacts (add_active st p false selfbad) contacts))))).
+      { split; [lia|]. intros _. split; [congruence|]. intros x Hx. rewrite G1, A1. auto. }
+      destruct checked; [|inversion H; subst; auto].
+      destruct (found_key && negb (fp_key_is_self prm)); [|inversion H; subst; auto].
+      destruct (put_result prm _ good true) as [s1 o1] eqn:Ep. inversion H; subst; clear H.
+      apply put_result_fields in Ep. destruct Ep as (P1 & P2 & P3 & P4 & P5 & P6 & P7 & _).
+      destruct Hb as (B1 & B2). specialize (B2 eq_refl). destruct B2 as (B2 & B3).
+      split; [lia|]. intros _. split; [congruence|]. intros x Hx. rewrite P2. auto.
+    - split; [|discriminate].
+      set (sc := if is_nil raw then (DOk, []) else scan_values raw []) in H.
+      destruct sc as [verdict items].
+      set (st1 := if negb (is_nil items) then _ else st) in H.
+      assert (H1 : f_seeds st1 = f_seeds st).
+      { subst st1. destruct (negb (is_nil items)); auto.
+        destruct (page_step eqc (fp_cap prm) _ items pages) as [nxt again]. reflexivity. }
+      destruct (add_contacts_fields contacts (add_active st1 p false selfbad))
+        as (G1 & G2 & G3 & G4 & G5 & G6 & G7 & G8 & G9 & _).
+      destruct (add_active_fields st1 p false selfbad) as (A1 & A2 & A3 & A4 & A5 & A6 & A7 & A8 & A9 & _).
+      cbv zeta in *.
+      destruct verdict.
+      + inversion H; subst. lia.
+      + destruct checked; [|inversion H; subst; lia].
+        destruct (negb (is_nil items)) eqn:En; [|inversion H; subst; lia].
+        destruct (yield_new eqc _ items) as [seen fresh]. inversion H; subst; clear H. fcbn. lia.
+      + destruct checked; [|inversion H; subst; lia].
+        destruct (negb (is_nil items)) eqn:En; [|inversion H; subst; lia].
+        destruct (yield_new eqc _ items) as [seen fresh]. inversion H; subst; clear H. fcbn. lia.
+    - unfold aclose in H. inversion H; subst. fcbn. split; [lia|]. auto.
+  Qed.
+End FinderInv.
+
+(* ---- run level ---- *)
+Definition seeds_of (evs : list fev) : nat := fold_right (fun e a => seeds_ev e + a) 0 evs.
+
+Lemma finv_init c : finv c f_init [].
+Proof.
+  constructor; cbn; try (constructor; fail); try (intros ? []); auto; try lia.
+Qed.
+
+Lemma frun_inv prm c (Hcap : fp_cap prm = Some c) evs : forall st U,
+  finv c st U ->
+  finv c (fst (frun prm st evs)) (U ++ mentioned evs) /\
+  f_seeds (fst (frun prm st evs)) = f_seeds st + seeds_of evs /\
+  (forallb (fun e => negb (is_vreply e)) evs = true ->
+     f_pages (fst (frun prm st evs)) = f_pages st /\
+     (forall x, In x (f_contacted st) -> In x (f_contacted (fst (frun prm st evs))))).
+Proof.
+  induction evs as [|e evs IH]; intros st U Hinv; cbn [frun mentioned flat_map seeds_of fold_right forallb].
+  - rewrite app_nil_r. conj_split; auto.
+  - destruct (fstep prm st e) as [[st1 o1] t1] eqn:Es.
+    pose proof (fstep_inv prm c Hcap _ _ _ _ _ _ Es Hinv) as H1.
+    pose proof (fstep_aux prm c _ _ _ _ _ _ Es Hinv) as (H2 & H3).
+    specialize (IH st1 _ H1). destruct (frun prm st1 evs) as [stf rest] eqn:Er. cbn [fst] in *.
+    destruct IH as (I1 & I2 & I3). fold (mentioned evs) in *. fold (seeds_of evs) in *.
+    conj_split.
+    + now rewrite app_assoc.
+    + lia.
+    + intro Hb. apply andb_prop in Hb. destruct Hb as [Hb1 Hb2].
+      apply negb_true_iff in Hb1. specialize (H3 Hb1). specialize (I3 Hb2).
+      destruct H3 as (H3a & H3b). destruct I3 as (I3a & I3b). split; [congruence|auto].
+Qed.
+
+Lemma total_pages_le c l : (forall k v, In (k, v) l -> v <= c) ->
+  fold_right (fun (kv : N * nat) a => snd kv + a) 0 l <= c * length l.
+Proof.
+  induction l as [|[k v] l IH]; intro H; simpl; [lia|].
+  assert (v <= c) by (apply (H k); now left).
+  assert (fold_right (fun (kv : N * nat) a => snd kv + a) 0 l <= c * length l)
+    by (apply IH; intros; eapply H; right; eauto).
+  nia.
+Qed.
+
+(* the number of probes ever scheduled is bounded by the seeds plus (1 + page cap) per distinct peer learned *)
+Theorem finder_probe_bound prm c evs : fp_cap prm = Some c ->
+  f_sched (final_state prm evs) <= seeds_of evs + (1 + c) * length (nodup N.eq_dec (mentioned evs)).
+Proof.
+  intro Hcap. unfold final_state.
+  destruct (frun_inv prm c Hcap evs f_init [] (finv_init c)) as (Hinv & Hs & _).
+  cbn [app] in Hinv. cbn in Hs. destruct Hinv as [a b d e f g h i].
+  set (stf := fst (frun prm f_init evs)) in *.
+  set (D := nodup N.eq_dec (mentioned evs)).
+  assert (Hc : length (f_contacted stf) <= length D).
+  { apply NoDup_incl_length; auto. intros x Hx. apply nodup_In. auto. }
+  assert (Hp : length (f_pages stf) <= length D).
+  { rewrite <- (map_length fst). apply NoDup_incl_length; auto. intros x Hx. apply nodup_In. auto. }
+  pose proof (total_pages_le c (f_pages stf) h) as Ht. unfold total_pages in e.
+  rewrite Hs in e. nia.
+Qed.
+
+(* without value replies (every node lookup): one probe per distinct peer learned, and contacted only grows *)
+Theorem finder_probe_bound_node prm c evs : fp_cap prm = Some c ->
+  forallb (fun e => negb (is_vreply e)) evs = true ->
+  f_sched (final_state prm evs) <= seeds_of evs + length (nodup N.eq_dec (mentioned evs)).
+Proof.
+  intros Hcap Hnv. unfold final_state.
+  destruct (frun_inv prm c Hcap evs f_init [] (finv_init c)) as (Hinv & Hs & Hp).
+  specialize (Hp Hnv). destruct Hp as (Hp & _). cbn in Hp.
+  cbn [app] in Hinv. cbn in Hs. destruct Hinv as [a b d e f g h i].
+  set (stf := fst (frun prm f_init evs)) in *.
+  assert (Hc : length (f_contacted stf) <= length (nodup N.eq_dec (mentioned evs))).
+  { apply NoDup_incl_length; auto. intros x Hx. apply nodup_In. auto. }
+  unfold total_pages in e. rewrite Hp in e. simpl in e. lia.
+Qed.
+
+Theorem finder_alpha prm c evs : fp_cap prm = Some c ->
+  length (f_running (final_state prm evs)) <= ALPHA + seeds_of evs.
+Proof.
+  intro Hcap. unfold final_state.
+  destruct (frun_inv prm c Hcap evs f_init [] (finv_init c)) as (Hinv & Hs & _).
+  destruct Hinv as [a b d e f g h i]. cbn in Hs. lia.
+Qed.
+
+Theorem finder_pages_capped prm c evs k v : fp_cap prm = Some c ->
+  In (k, v) (f_pages (final_state prm evs)) -> v <= c.
+Proof.
+  intros Hcap. unfold final_state.
+  destruct (frun_inv prm c Hcap evs f_init [] (finv_init c)) as (Hinv & _ & _).
+  destruct Hinv as [a b d e f g h i]. apply h.
+Qed.
+
+(* reachable states satisfy the invariant, so the per-step facts below apply along every run *)
+Lemma reachable_inv prm c evs : fp_cap prm = Some c -> finv c (final_state prm evs) (mentioned evs).
+Proof.
+  intro Hcap. destruct (frun_inv prm c Hcap evs f_init [] (finv_init c)) as (Hinv & _). exact Hinv.
+Qed.
+
+(* contacted only grows on every event that is not a value reply *)
+Theorem contacted_monotone prm c evs ev st' outs tag : fp_cap prm = Some c -> is_vreply ev = false ->
+  fstep prm (final_state prm evs) ev = (st', outs, tag) ->
+  forall x, In x (f_contacted (final_state prm evs)) -> In x (f_contacted st').
+Proof.
+  intros Hcap Hv Hs. pose proof (reachable_inv prm c evs Hcap) as Hinv.
+  destruct (fstep_aux prm c _ _ _ _ _ _ Hs Hinv) as (_ & H). destruct (H Hv). auto.
+Qed.
+
+(* after every search round either a probe is still running or the finish marker has been queued *)
+Theorem round_progress prm c evs ev st' outs tag : fp_cap prm = Some c ->
+  (exists good, ev = EStart good) \/ (exists p good, ev = EDone p good /\ f_on (final_state prm evs) = true) ->
+  fstep prm (final_state prm evs) ev = (st', outs, tag) ->
+  f_running st' <> [] \/ In OFinish outs.
+Proof.
+  intros Hcap Hev Hs. pose proof (reachable_inv prm c evs Hcap) as Hinv.
+  set (st := final_state prm evs) in *.
+  destruct Hev as [(good & ->)|(p & good & -> & Hon)]; cbn [fstep] in Hs.
+  - destruct (search_round prm _ good) as [s1 o1] eqn:Es. inversion Hs; subst; clear Hs.
+    eapply search_round_inv in Es; [|apply finv_set_on_running; [|exact Hinv]; auto].
+    destruct Es as (_ & _ & _ & E4 & _). destruct (f_running st') eqn:Er; [right; auto|left; discriminate].
+  - rewrite Hon in Hs.
+    destruct (search_round prm _ good) as [s1 o1] eqn:Es. inversion Hs; subst; clear Hs.
+    eapply search_round_inv in Es; [|apply finv_set_on_running; [|exact Hinv]; apply removeN_length_le].
+    destruct Es as (_ & _ & _ & E4 & _). destruct (f_running st') eqn:Er; [right; auto|left; discriminate].
+Qed.
+
+(* ---- outputs ---- *)
+Lemma In_firstn {A} n (l : list A) x : In x (firstn n l) -> In x l.
+Proof. intro H. rewrite <- (firstn_skipn n l). apply in_or_app. now left. Qed.
+
+Lemma put_result_yield prm st good fin st' outs ps x :
+  put_result prm st good fin = (st', outs) -> In (OYield ps) outs -> In x ps ->
+  In x good /\ ~ In x (f_yielded st) /\ exists q, In q (f_active st) /\ pid q = x /\ self_id q = false.
+Proof.
+  unfold put_result. cbv zeta. intros H Hin Hx. inversion H; subst; clear H.
+  apply in_app_or in Hin. destruct Hin as [Hin|Hin].
+  2:{ destruct fin; [destruct Hin as [Hin|[]]; discriminate|destruct Hin]. }
+  destruct (is_nil _); [destruct Hin|]. destruct Hin as [Hin|[]]. inversion Hin; subst; clear Hin.
+  apply in_map_iff in Hx. destruct Hx as (q & <- & Hq). apply In_firstn in Hq.
+  apply filter_In in Hq. destruct Hq as (Hq & Hc).
+  apply andb_prop in Hc. destruct Hc as (Hc & Hg). apply andb_prop in Hc. destruct Hc as (Hy & Hs).
+  apply negb_true_iff in Hy, Hs. apply memN_In in Hg. apply memN_notIn in Hy. eauto 8.
+Qed.
+
+Lemma put_result_no_v prm st good fin st' outs cs :
+  put_result prm st good fin = (st', outs) -> ~ In (OVYield cs) outs.
+Proof.
+  unfold put_result. cbv zeta. intros H Hin. inversion H; subst; clear H.
+  apply in_app_or in Hin. destruct Hin as [Hin|Hin].
+  - destruct (is_nil _); [destruct Hin|]. destruct Hin as [Hin|[]]. discriminate.
+  - destruct fin; [destruct Hin as [Hin|[]]; discriminate|destruct Hin].
+Qed.
+
+Lemma round_loop_light l : forall idx st added outs st' added' outs',
+  round_loop l idx st added outs = (st', added', outs') ->
+  f_active st' = f_active st /\ f_yielded st' = f_yielded st /\
+  (forall o, In o outs' -> In o outs \/ exists x, o = OSched x).
+Proof.
+  induction l as [|p l IH]; intros idx st added outs st' added' outs' Hr; cbn [round_loop] in Hr.
+  - inversion Hr; subst. auto.
+  - destruct (memN (pid p) (f_contacted st)); [eapply IH; eauto|].
+    destruct (ALPHA <=? length (f_running st)); [inversion Hr; subst; auto|].
+    destruct (K + length (f_running st) <? idx); [inversion Hr; subst; auto|].
+    destruct (self_id p); [eapply IH; eauto|].
+    destruct (self_addr p); [eapply IH; eauto|].
+    apply IH in Hr. destruct Hr as (H1 & H2 & H3). cbn in H1, H2. conj_split; auto.
+    intros o Ho. destruct (H3 o Ho) as [Hi|Hi]; auto. apply in_app_or in Hi.
+    destruct Hi as [Hi|[<-|[]]]; eauto.
+Qed.
+
+Lemma search_round_yield prm st good st' outs :
+  search_round prm st good = (st', outs) ->
+  f_active st' = f_active st /\
+  (forall ps x, In (OYield ps) outs -> In x ps ->
+     In x good /\ ~ In x (f_yielded st) /\ exists q, In q (f_active st) /\ pid q = x /\ self_id q = false) /\
+  (forall cs, ~ In (OVYield cs) outs).
+Proof.
+  unfold search_round. intro H.
+  destruct (round_loop (f_active st) 0 st 0 []) as [[st1 added] outs1] eqn:Er.
+  apply round_loop_light in Er. destruct Er as (E1 & E2 & E3).
+  assert (Hno : forall o, In o outs1 -> exists x, o = OSched x).
+  { intros o Ho. destruct (E3 o Ho) as [[]|]; auto. }
+  destruct (Nat.eqb added 0 && is_nil (f_running st1)).
+  - destruct (exhausted prm st1 good) as [st2 o2] eqn:Ee. inversion H; subst; clear H.
+    unfold exhausted in Ee. destruct (fp_kind prm).
+    + pose proof (put_result_fields prm _ _ _ _ _ Ee) as (G1 & _).
+      conj_split; [congruence| |].
+      * intros ps x Hin Hx. apply in_app_or in Hin. destruct Hin as [Hin|Hin].
+        { destruct (Hno _ Hin) as (y & Hy). discriminate. }
+        rewrite <- E1, <- E2. eapply put_result_yield; eauto.
+      * intros cs Hin. apply in_app_or in Hin. destruct Hin as [Hin|Hin].
+        { destruct (Hno _ Hin) as (y & Hy). discriminate. }
+        eapply put_result_no_v; eauto.
+    + inversion Ee; subst. conj_split; auto.
+      * intros ps x Hin Hx. apply in_app_or in Hin. destruct Hin as [Hin|[Hin|[]]]; [|discriminate].
+        destruct (Hno _ Hin) as (y & Hy). discriminate.
+      * intros cs Hin. apply in_app_or in Hin. destruct Hin as [Hin|[Hin|[]]]; [|discriminate].
+        destruct (Hno _ Hin) as (y & Hy). discriminate.
+  - inversion H; subst; clear H. conj_split; auto.
+    + intros ps x Hin Hx. destruct (Hno _ Hin) as (y & Hy). discriminate.
+    + intros cs Hin. destruct (Hno _ Hin) as (y & Hy). discriminate.
+Qed.
+
+Definition good_of (ev : fev) : list N :=
+  match ev with
+  | EStart g => g | EDone _ g => g | ENodeReply _ _ _ _ _ g => g | _ => []
+  end.
+
+(* node lookup: whatever is yielded was reported good (= it replied), was not yielded before, and its
+   record is not the searching node *)
+Theorem node_yield_valid prm st ev st' outs tag ps x :
+  fstep prm st ev = (st', outs, tag) -> In (OYield ps) outs -> In x ps ->
+  In x (good_of ev) /\ ~ In x (f_yielded st) /\
+  exists q, In q (f_active st') /\ pid q = x /\ self_id q = false.
+Proof.
+  intros H Hin Hx. destruct ev; cbn [fstep] in H; cbn [good_of].
+  - match type of H with (let '(_, _) := ?f in _) = _ => destruct f as [s1 o1] eqn:Ef end.
+    inversion H; subst; clear H. exfalso. assert (Hgen : forall sl st o0 s1 o1,
+      fold_left (fun so p => if has_id p then (add_active (fst so) p true false, snd so)
+                 else (schedule (fst so) (pid p) true, snd so ++ [OSched (pid p)])) sl (st, o0) = (s1, o1) ->
+      forall o, In o o1 -> In o o0 \/ exists y, o = OSched y).
+    { clear. induction sl as [|p sl IH]; intros st o0 s1 o1 Hf o Ho; cbn [fold_left] in Hf.
+      - inversion Hf; subst; auto.
+      - cbn [fst snd] in Hf. destruct (has_id p).
+        + eapply IH; eauto.
+        + destruct (IH _ _ _ _ Hf o Ho) as [Hi|Hi]; auto. apply in_app_or in Hi.
+          destruct Hi as [Hi|[<-|[]]]; eauto. }
+    destruct (Hgen _ _ _ _ _ Ef _ Hin) as [[]|(y & Hy)]. discriminate.
+  - destruct (search_round prm _ good) as [s1 o1] eqn:Es. inversion H; subst; clear H.
+    apply search_round_yield in Es. destruct Es as (E1 & E2 & _).
+    destruct (E2 _ _ Hin Hx) as (A1 & A2 & q & A3 & A4 & A5). cbn in A2, A3.
+    conj_split; auto. exists q. rewrite E1. cbn. auto.
+  - destruct (f_on st); [|inversion H; subst; destruct Hin].
+    destruct (search_round prm _ good) as [s1 o1] eqn:Es. inversion H; subst; clear H.
+    apply search_round_yield in Es. destruct Es as (E1 & E2 & _).
+    destruct (E2 _ _ Hin Hx) as (A1 & A2 & q & A3 & A4 & A5). cbn in A2, A3.
+    conj_split; auto. exists q. rewrite E1. cbn. auto.
+  - inversion H; subst. destruct Hin.
+  - inversion H; subst. destruct Hin.
+  - unfold aclose in H. inversion H; subst. destruct Hin as [Hin|[]]. discriminate.
+  - destruct checked; [|inversion H; subst; destruct Hin].
+    destruct (found_key && negb (fp_key_is_self prm)); [|inversion H; subst; destruct Hin].
+    destruct (put_result prm _ good true) as [s1 o1] eqn:Ep. inversion H; subst; clear H.
+    pose proof (put_result_fields prm _ _ _ _ _ Ep) as (G1 & _).
+    destruct (put_result_yield _ _ _ _ _ _ _ _ Ep Hin Hx) as (A1 & A2 & q & A3 & A4 & A5).
+    destruct (add_contacts_fields contacts (add_active st p false selfbad)) as (_ & _ & _ & C4 & _).
+    destruct (add_active_fields st p false selfbad) as (_ & _ & _ & D4 & _).
+    cbv zeta in *. rewrite C4, D4 in A2. conj_split; auto. exists q. rewrite G1. auto.
+  - exfalso.
+    destruct (if is_nil raw then (DOk, []) else scan_values raw []) as [verdict items].
+    match type of H with context [if negb (is_nil items) then ?a else st] =>
+      set (st1 := if negb (is_nil items) then a else st) in H end.
+    destruct verdict.
+    + inversion H; subst. destruct Hin.
+    + destruct checked; [|inversion H; subst; destruct Hin].
+      destruct (negb (is_nil items)); [|inversion H; subst; destruct Hin].
+      destruct (yield_new eqc _ items) as [seen fresh]. inversion H; subst; clear H.
+      destruct (is_nil fresh); [destruct Hin|destruct Hin as [Hin|[]]; discriminate].
+    + destruct checked; [|inversion H; subst; destruct Hin].
+      destruct (negb (is_nil items)); [|inversion H; subst; destruct Hin].
+      destruct (yield_new eqc _ items) as [seen fresh]. inversion H; subst; clear H.
+      destruct (is_nil fresh); [destruct Hin|destruct Hin as [Hin|[]]; discriminate].
+  - unfold aclose in H. inversion H; subst. destruct Hin as [Hin|[]]. discriminate.
+Qed.
+
+(* ---- value lookups: only well-formed public addresses ---- *)
+Lemma scan_values_ok raw : forall acc v items,
+  scan_values raw acc = (v, items) ->
+  (v = DOk -> forall c, In c items -> In c acc \/ (In (VB c) raw /\ valid_compact c = true)) /\
+  (v <> DOk -> items = []).
+Proof.
+  induction raw as [|it raw IH]; intros acc v items H; cbn [scan_values] in H.
+  - inversion H; subst. split; [auto|congruence].
+  - destruct it as [bs|]; [|inversion H; subst; split; [discriminate|auto]].
+    destruct (decode_compact bs) eqn:Ed; try (inversion H; subst; split; [discriminate|auto]; fail).
+    apply IH in H. destruct H as (H1 & H2). split; auto.
+    intros Hv c Hc. destruct (H1 Hv c Hc) as [Hi|(Hi & Hvc)].
+    + apply in_app_or in Hi. destruct Hi as [Hi|[<-|[]]]; auto.
+      right. split; [now left|]. unfold valid_compact. now rewrite Ed.
+    + right. split; auto. now right.
+Qed.
+
+Lemma yield_new_sub (seen items : list bytes) :
+  forall c, In c (snd (yield_new eqc seen items)) -> In c items.
+Proof.
+  unfold yield_new.
+  assert (G : forall items seen out c,
+    In c (snd (fold_left (fun sa x => if mem eqc x (fst sa) then sa else (fst sa ++ [x], snd sa ++ [x])) items (seen, out))) ->
+    In c out \/ In c items).
+  { clear. induction items as [|x items IH]; intros seen out c H; cbn [fold_left] in H; [now left|].
+    cbn [fst snd] in H. destruct (mem eqc x seen).
+    - destruct (IH _ _ _ H); auto. right. now right.
+    - destruct (IH _ _ _ H) as [Hi|Hi]; [|right; now right].
+      apply in_app_or in Hi. destruct Hi as [Hi|[<-|[]]]; auto. right. now left. }
+  intros c H. destruct (G _ _ _ _ H) as [[]|]; auto.
+Qed.
+
+Theorem value_yield_valid prm st ev st' outs tag cs c :
+  fstep prm st ev = (st', outs, tag) -> In (OVYield cs) outs -> In c cs ->
+  valid_compact c = true /\
+  exists p sb raw pages cts chk, ev = EValueReply p sb raw pages cts chk /\ In (VB c) raw.
+Proof.
+  intros H Hin Hc. destruct ev; cbn [fstep] in H.
+  - exfalso. match type of H with (let '(_, _) := ?f in _) = _ => destruct f as [s1 o1] eqn:Ef end.
+    inversion H; subst; clear H. assert (Hgen : forall sl st o0 s1 o1,
+      fold_left (fun so p => if has_id p then (add_active (fst so) p true false, snd so)
+                 else (schedule (fst so) (pid p) true, snd so ++ [OSched (pid p)])) sl (st, o0) = (s1, o1) ->
+      forall o, In o o1 -> In o o0 \/ exists y, o = OSched y).
+    { clear. induction sl as [|p sl IH]; intros st o0 s1 o1 Hf o Ho; cbn [fold_left] in Hf.
+      - inversion Hf; subst; auto.
+      - cbn [fst snd] in Hf. destruct (has_id p).
+        + eapply IH; eauto.
+        + destruct (IH _ _ _ _ Hf o Ho) as [Hi|Hi]; auto. apply in_app_or in Hi.
+          destruct Hi as [Hi|[<-|[]]]; eauto. }
+    destruct (Hgen _ _ _ _ _ Ef _ Hin) as [[]|(y & Hy)]. discriminate.
+  - exfalso. destruct (search_round prm _ good) as [s1 o1] eqn:Es. inversion H; subst; clear H.
+    apply search_round_yield in Es. destruct Es as (_ & _ & E3). exact (E3 _ Hin).
+  - exfalso. destruct (f_on st); [|inversion H; subst; destruct Hin].
+    destruct (search_round prm _ good) as [s1 o1] eqn:Es. inversion H; subst; clear H.
+    apply search_round_yield in Es. destruct Es as (_ & _ & E3). exact (E3 _ Hin).
+  - inversion H; subst. destruct Hin.
+  - inversion H; subst. destruct Hin.
+  - unfold aclose in H. inversion H; subst. destruct Hin as [Hin|[]]. discriminate.
+  - exfalso. destruct checked; [|inversion H; subst; destruct Hin].
+    destruct (found_key && negb (fp_key_is_self prm)); [|inversion H; subst; destruct Hin].
+    destruct (put_result prm _ good true) as [s1 o1] eqn:Ep. inversion H; subst; clear H.
+    eapply put_result_no_v; eauto.
+  - destruct (if is_nil raw then (DOk, []) else scan_values raw []) as [verdict items] eqn:Esc.
+    assert (Hitems : forall x, In x items -> verdict = DOk /\ In (VB x) raw /\ valid_compact x = true).
+    { destruct (is_nil raw); [inversion Esc; subst; intros x []|].
+      apply scan_values_ok in Esc. destruct Esc as (S1 & S2). intros x Hx.
+      destruct verdict; try (rewrite S2 in Hx by discriminate; destruct Hx).
+      destruct (S1 eq_refl x Hx) as [[]|(A & B)]. auto. }
+    match type of H with context [if negb (is_nil items) then ?a else st] =>
+      set (st1 := if negb (is_nil items) then a else st) in H end.
+    destruct verdict.
+    + inversion H; subst. destruct Hin.
+    + destruct checked; [|inversion H; subst; destruct Hin].
+      destruct (negb (is_nil items)); [|inversion H; subst; destruct Hin].
+      destruct (yield_new eqc _ items) as [seen fresh] eqn:Ey. inversion H; subst; clear H.
+      destruct (is_nil fresh); [destruct Hin|]. destruct Hin as [Hin|[]]. inversion Hin; subst; clear Hin.
+      assert (Hci : In c items) by (apply (yield_new_sub (f_blob (add_contacts (add_active st1 p false selfbad) contacts))); rewrite Ey; auto).
+      destruct (Hitems c Hci) as (Hv & _). discriminate.
+    + destruct checked; [|inversion H; subst; destruct Hin].
+      destruct (negb (is_nil items)); [|inversion H; subst; destruct Hin].
+      destruct (yield_new eqc _ items) as [seen fresh] eqn:Ey. inversion H; subst; clear H.
+      destruct (is_nil fresh); [destruct Hin|]. destruct Hin as [Hin|[]]. inversion Hin; subst; clear Hin.
+      assert (Hci : In c items) by (apply (yield_new_sub (f_blob (add_contacts (add_active st1 p false selfbad) contacts))); rewrite Ey; auto).
+      destruct (Hitems c Hci) as (_ & Hr & Hv). split; auto. eauto 10.
+  - unfold aclose in H. inversion H; subst. destruct Hin as [Hin|[]]. discriminate.
+Qed.
+
+(* what "well-formed public peer address" means for a compact address *)
+Lemma valid_compact_spec bs : valid_compact bs = true ->
+  length bs = 54 /\
+  (1024 <= be_decode (firstn 2 (skipn 4 bs)) < 65536)%N /\
+  public_ip (nthN bs 0) (nthN bs 1) (nthN bs 2) (nthN bs 3) = true.
+Proof.
+  unfold valid_compact, decode_compact.
+  destruct (length bs <? 4) eqn:E4; [discriminate|].
+  destruct (be_decode (firstn 2 (skipn 4 bs)) =? 0)%N eqn:E0; [discriminate|].
+  destruct (Nat.eqb (length (skipn 6 bs)) 48) eqn:E48; cbn [negb]; [|discriminate].
+  destruct (be_decode (firstn 2 (skipn 4 bs)) <? 1024)%N eqn:Ep; [discriminate|].
+  destruct (public_ip _ _ _ _) eqn:Epub; cbn [negb]; [|discriminate].
+  intros _. apply Nat.eqb_eq in E48. rewrite skipn_length in E48. apply N.ltb_ge in Ep.
+  assert (Hl : length bs = 54) by lia. conj_split; auto.
+  pose proof (be_decode_lt (firstn 2 (skipn 4 bs))) as Hlt.
+  rewrite firstn_length, skipn_length, Hl in Hlt. change (N.of_nat (Nat.min 2 (54 - 4))) with 2%N in Hlt.
+  change (256 ^ 2)%N with 65536%N in Hlt. exact Hlt.
+Qed.
+
+(* ------------------------------------------------------------------------------------------ *)
+(* A. data store: the list-of-lists store refines a partial map (key, peer) -> time stored     *)
+(* ------------------------------------------------------------------------------------------ *)
+Fixpoint ent_ts (es : entries) (p : N) : option Z :=
+  match es with [] => None | (q, ts) :: r => if N.eqb q p then Some ts else ent_ts r p end.
+Definition ts_of (s : store) (k p : N) : option Z :=
+  match ds_find s k with Some es => ent_ts es p | None => None end.
+
+Definition wf_store (s : store) : Prop :=
+  NoDup (map fst s) /\ forall k es, In (k, es) s -> NoDup (map fst es).
+
+Lemma ent_set_keys es p now x : In x (map fst (ent_set es p now)) <-> x = p \/ In x (map fst es).
+Proof.
+  induction es as [|[q ts] es IH]; simpl; [intuition|].
+  destruct (N.eqb_spec q p) as [->|Ne]; simpl; [intuition|]. rewrite IH. intuition.
+Qed.
+
+Lemma ent_set_NoDup es p now : NoDup (map fst es) -> NoDup (map fst (ent_set es p now)).
+Proof.
+  induction es as [|[q ts] es IH]; simpl; intro H.
+  - constructor; [intros []|constructor].
+  - inversion H as [|? ? Hn Hd]; subst. destruct (N.eqb_spec q p) as [->|Ne]; simpl.
+    + constructor; auto.
+    + constructor; auto. rewrite ent_set_keys. intros [->|Hi]; auto.
+Qed.
+
+Lemma ent_ts_set es p now q : ent_ts (ent_set es p now) q = if N.eqb q p then Some now else ent_ts es q.
+Proof.
+  induction es as [|[r ts] es IH]; simpl.
+  - rewrite (N.eqb_sym p q). reflexivity.
+  - destruct (N.eqb_spec r p) as [->|Ne]; simpl.
+    + rewrite (N.eqb_sym p q). destruct (N.eqb_spec q p); auto.
+    + destruct (N.eqb_spec r q) as [->|Nq].
+      * destruct (N.eqb_spec q p); [congruence|auto].
+      * apply IH.
+Qed.
+
+Lemma ds_add_keys s k p now x : In x (map fst (ds_add s k p now)) <-> x = k \/ In x (map fst s).
+Proof.
+  induction s as [|[k' es] s IH]; simpl; [intuition|].
+  destruct (N.eqb_spec k' k) as [->|Ne]; simpl; [intuition|]. rewrite IH. intuition.
+Qed.
+
+Lemma ds_add_wf s k p now : wf_store s -> wf_store (ds_add s k p now).
+Proof.
+  intros [H1 H2]. split.
+  - induction s as [|[k' es] s IH]; simpl.
+    + constructor; [intros []|constructor].
+    + inversion H1 as [|? ? Hn Hd]; subst. destruct (N.eqb_spec k' k) as [->|Ne]; simpl.
+      * constructor; auto.
+      * constructor; [rewrite ds_add_keys; intros [->|Hi]; auto|].
+        apply IH; auto. intros; eapply H2; right; eauto.
+  - induction s as [|[k' es] s IH]; simpl; intros k0 es0 Hin.
+    + destruct Hin as [Hin|[]]. inversion Hin; subst. simpl. constructor; [intros []|constructor].
+    + inversion H1 as [|? ? Hn Hd]; subst. destruct (N.eqb_spec k' k) as [->|Ne]; simpl in Hin.
+      * destruct Hin as [Hin|Hin]; [inversion Hin; subst; apply ent_set_NoDup; eapply H2; left; eauto|].
+        eapply H2; right; eauto.
+      * destruct Hin as [Hin|Hin]; [inversion Hin; subst; eapply H2; left; eauto|].
+        eapply IH; eauto. intros; eapply H2; right; eauto.
+Qed.
+
+Lemma ts_of_add s k p now k' p' :
+  ts_of (ds_add s k p now) k' p' = if N.eqb k' k && N.eqb p' p then Some now else ts_of s k' p'.
+Proof.
+  unfold ts_of. induction s as [|[k0 es] s IH]; simpl.
+  - rewrite (N.eqb_sym k k'). destruct (N.eqb_spec k' k); simpl; auto.
+    rewrite (N.eqb_sym p p'). destruct (N.eqb_spec p' p); auto.
+  - destruct (N.eqb_spec k0 k) as [->|Ne]; simpl.
+    + rewrite (N.eqb_sym k k'). destruct (N.eqb_spec k' k) as [->|Nk]; simpl; auto. apply ent_ts_set.
+    + destruct (N.eqb_spec k0 k') as [->|Nk].
+      * destruct (N.eqb_spec k' k); [congruence|]. reflexivity.
+      * apply IH.
+Qed.
+
+Lemma ent_ts_None es p : ~ In p (map fst es) -> ent_ts es p = None.
+Proof.
+  induction es as [|[q ts] es IH]; simpl; auto. intro H.
+  destruct (N.eqb_spec q p) as [->|Ne]; [exfalso; apply H; now left|]. apply IH. tauto.
+Qed.
+
+Lemma ent_ts_filter (keep : N * Z -> bool) es p : NoDup (map fst es) ->
+  ent_ts (filter keep es) p =
+  match ent_ts es p with Some ts => if keep (p, ts) then Some ts else None | None => None end.
+Proof.
+  induction es as [|[q ts] es IH]; simpl; intro H; auto.
+  inversion H as [|? ? Hn Hd]; subst.
+  destruct (N.eqb_spec q p) as [->|Ne].
+  - destruct (keep (p, ts)) eqn:Ek; simpl.
+    + now rewrite N.eqb_refl.
+    + apply ent_ts_None. intro Hi. apply Hn. apply in_map_iff in Hi. destruct Hi as ([a b] & <- & Hi).
+      apply filter_In in Hi. apply in_map_iff. exists (a, b). tauto.
+  - destruct (keep (q, ts)); simpl; [destruct (N.eqb_spec q p); [congruence|]|]; apply IH; auto.
+Qed.
+
+Lemma ent_ts_In es p ts : NoDup (map fst es) -> (In (p, ts) es <-> ent_ts es p = Some ts).
+Proof.
+  induction es as [|[q t] es IH]; simpl; intro H.
+  - split; [intros []|discriminate].
+  - inversion H as [|? ? Hn Hd]; subst. destruct (N.eqb_spec q p) as [->|Ne].
+    + split.
+      * intros [Hi|Hi]; [inversion Hi; auto|]. exfalso. apply Hn. apply in_map_iff. exists (p, ts). auto.
+      * intro Hi. inversion Hi; subst. now left.
+    + rewrite <- IH by auto. split; [intros [Hi|Hi]; [inversion Hi; congruence|auto]|auto].
+Qed.
+
+Lemma ds_find_In s k es : NoDup (map fst s) -> (In (k, es) s <-> ds_find s k = Some es).
+Proof.
+  induction s as [|[k' e'] s IH]; simpl; intro H.
+  - split; [intros []|discriminate].
+  - inversion H as [|? ? Hn Hd]; subst. destruct (N.eqb_spec k' k) as [->|Ne].
+    + split.
+      * intros [Hi|Hi]; [inversion Hi; auto|]. exfalso. apply Hn. apply in_map_iff. exists (k, es). auto.
+      * intro Hi. inversion Hi; subst. now left.
+    + rewrite <- IH by auto. split; [intros [Hi|Hi]; [inversion Hi; congruence|auto]|auto].
+Qed.
+
+Definition keep_of now bad : N * Z -> bool := fun e => negb (doomed now bad e).
+
+Lemma ds_expire_find s now bad k : NoDup (map fst s) ->
+  ds_find (ds_expire s now bad) k =
+  match ds_find s k with
+  | Some es => if is_nil (filter (keep_of now bad) es) then None else Some (filter (keep_of now bad) es)
+  | None => None
+  end.
+Proof.
+  unfold ds_expire. fold (keep_of now bad).
+  induction s as [|[k' es] s IH]; simpl; intro H; auto.
+  inversion H as [|? ? Hn Hd]; subst.
+  destruct (is_nil (filter (keep_of now bad) es)) eqn:En; simpl.
+  - destruct (N.eqb_spec k' k) as [->|Ne]; [|apply IH; auto].
+    rewrite IH by auto. rewrite En. destruct (ds_find s k) eqn:Ef; auto.
+    exfalso. apply Hn. apply ds_find_In in Ef; auto. apply in_map_iff. exists (k, e). auto.
+  - destruct (N.eqb_spec k' k) as [->|Ne]; auto. now rewrite En.
+Qed.
+
+Lemma NoDup_map_filter {A B} (g : A -> B) (f : A -> bool) (l : list A) :
+  NoDup (map g l) -> NoDup (map g (filter f l)).
+Proof.
+  induction l as [|x l IH]; simpl; intro H; [constructor|].
+  inversion H as [|? ? Hn Hd]; subst. destruct (f x); simpl; auto.
+  constructor; auto. intro Hi. apply Hn. apply in_map_iff in Hi. destruct Hi as (y & E & Hi).
+  apply filter_In in Hi. apply in_map_iff. exists y. tauto.
+Qed.
+
+Lemma ds_expire_wf s now bad : wf_store s -> wf_store (ds_expire s now bad).
+Proof.
+  intros [H1 H2]. unfold ds_expire. fold (keep_of now bad). split.
+  - apply NoDup_map_filter. rewrite map_map. cbn [fst]. exact H1.
+  - intros k es Hin. apply filter_In in Hin. destruct Hin as (Hin & _).
+    apply in_map_iff in Hin. destruct Hin as ([k' es'] & E & Hin). cbn [fst snd] in E.
+    inversion E; subst. apply NoDup_map_filter. eapply H2; eauto.
+Qed.
+
+Lemma ts_of_expire s now bad k p : wf_store s ->
+  ts_of (ds_expire s now bad) k p =
+  match ts_of s k p with Some ts => if doomed now bad (p, ts) then None else Some ts | None => None end.
+Proof.
+  intros [H1 H2]. unfold ts_of. rewrite ds_expire_find by auto.
+  destruct (ds_find s k) as [es|] eqn:Ef; auto.
+  assert (Hnd : NoDup (map fst es)) by (eapply H2; apply ds_find_In; eauto).
+  pose proof (ent_ts_filter (keep_of now bad) es p Hnd) as Hf.
+  destruct (is_nil (filter (keep_of now bad) es)) eqn:En.
+  - destruct (filter (keep_of now bad) es); [|discriminate]. simpl in Hf.
+    destruct (ent_ts es p); auto. unfold keep_of in Hf. destruct (doomed now bad (p, z)); auto; discriminate.
+  - rewrite Hf. destruct (ent_ts es p); auto. unfold keep_of. destruct (doomed now bad (p, z)); auto.
+Qed.
+
+Lemma ds_get_spec s k now bad p : wf_store s ->
+  (In p (ds_get s k now bad) <-> exists ts, ts_of s k p = Some ts /\ visible now bad (p, ts) = true).
+Proof.
+  intros [H1 H2]. unfold ds_get, ts_of. destruct (ds_find s k) as [es|] eqn:Ef.
+  - assert (Hnd : NoDup (map fst es)) by (eapply H2; apply ds_find_In; eauto).
+    rewrite in_map_iff. split.
+    + intros ([q ts] & <- & Hi). apply filter_In in Hi. destruct Hi as (Hi & Hv).
+      exists ts. split; auto. now apply ent_ts_In.
+    + intros (ts & Ht & Hv). exists (p, ts). split; auto. apply filter_In. split; auto. now apply ent_ts_In.
+  - split; [intros []|intros (ts & Ht & _); discriminate].
+Qed.
+
+Lemma ds_get_NoDup s k now bad : wf_store s -> NoDup (ds_get s k now bad).
+Proof.
+  intros [H1 H2]. unfold ds_get. destruct (ds_find s k) as [es|] eqn:Ef; [|constructor].
+  assert (Hnd : NoDup (map fst es)) by (eapply H2; apply ds_find_In; eauto).
+  clear -Hnd. induction es as [|[p ts] es IH]; simpl; [constructor|].
+  inversion Hnd as [|? ? Hn Hd]; subst. destruct (visible now bad (p, ts)); simpl; auto.
+  constructor; auto. intro Hi. apply Hn. apply in_map_iff in Hi. destruct Hi as ([a b] & <- & Hi).
+  apply filter_In in Hi. apply in_map_iff. exists (a, b). tauto.
+Qed.
+
+(* the abstract store *)
+Definition amap := N -> N -> option Z.
+Definition a_step (m : amap) (o : dop) : amap :=
+  match o with
+  | DAdd k p now => fun k' p' => if N.eqb k' k && N.eqb p' p then Some now else m k' p'
+  | DExpire now bad => fun k' p' =>
+      match m k' p' with
+      | Some ts => if doomed now (bad_of bad) (p', ts) then None else Some ts
+      | None => None
+      end
+  end.
+Definition a_run (ops : list dop) : amap := fold_left a_step ops (fun _ _ => None).
+
+Lemma wf_nil : wf_store [].
+Proof. split; [constructor|intros ? ? []]. Qed.
+
+Lemma ds_step_wf s o : wf_store s -> wf_store (ds_step s o).
+Proof. destruct o; simpl; [apply ds_add_wf|apply ds_expire_wf]. Qed.
+
+Lemma ds_run_gen ops : forall s m, wf_store s -> (forall k p, ts_of s k p = m k p) ->
+  wf_store (fold_left ds_step ops s) /\
+  forall k p, ts_of (fold_left ds_step ops s) k p = fold_left a_step ops m k p.
+Proof.
+  induction ops as [|o ops IH]; intros s m Hwf Heq; cbn [fold_left]; auto.
+  apply IH; [now apply ds_step_wf|].
+  intros k p. destruct o; cbn [ds_step a_step].
+  - rewrite ts_of_add. now rewrite Heq.
+  - rewrite ts_of_expire by auto. now rewrite Heq.
+Qed.
+
+Theorem store_refines ops k p : ts_of (ds_run ops) k p = a_run ops k p.
+Proof. unfold ds_run, a_run. apply ds_run_gen; [apply wf_nil|reflexivity]. Qed.
+
+Theorem store_visible_until_expiry ops k p now bad :
+  In p (ds_get (ds_run ops) k now bad) <->
+  exists ts, a_run ops k p = Some ts /\ (now < ts + 86400)%Z /\ bad p = false.
+Proof.
+  assert (Hwf : wf_store (ds_run ops)) by (apply (ds_run_gen ops [] (fun _ _ => None)); [apply wf_nil|reflexivity]).
+  rewrite ds_get_spec by auto. setoid_rewrite store_refines.
+  unfold visible, EXPIRY. cbn [fst snd].
+  split; intros (ts & Ht & Hv); exists ts; split; auto.
+  - apply andb_prop in Hv. destruct Hv as (Hv1 & Hv2). apply Z.ltb_lt in Hv1. apply negb_true_iff in Hv2. auto.
+  - destruct Hv as (Hv1 & Hv2). apply andb_true_intro. split; [now apply Z.ltb_lt|now apply negb_true_iff].
+Qed.
+
+Theorem store_get_NoDup ops k now bad : NoDup (ds_get (ds_run ops) k now bad).
+Proof.
+  apply ds_get_NoDup. apply (ds_run_gen ops [] (fun _ _ => None)); [apply wf_nil|reflexivity].
+Qed.
+
+Lemma a_run_app ops o : forall k p, a_run (ops ++ [o]) k p = a_step (a_run ops) o k p.
+Proof. intros. unfold a_run. now rewrite fold_left_app. Qed.
+
+(* refresh: a repeated announcement replaces the timestamp, whatever happened before *)
+Theorem store_refresh ops k p t now bad :
+  In p (ds_get (ds_run (ops ++ [DAdd k p t])) k now bad) <-> (now < t + 86400)%Z /\ bad p = false.
+Proof.
+  rewrite store_visible_until_expiry. rewrite a_run_app. cbn [a_step]. rewrite !N.eqb_refl. cbn [andb].
+  split.
+  - intros (ts & E & H). inversion E; subst. exact H.
+  - intros H. exists t. split; auto.
+Qed.
+
+(* ---- witnesses for the _refuted lemmas ---- *)
+Definition mk_compact (i : N) : bytes :=
+  [x01; x02; x03; x04; x0d; x05] ++ be_encode 48 i.
+
+Definition pager_peer : peer := {| pid := 1; pdist := 5; has_id := true; self_id := false; self_addr := false |}.
+
+(* a hostile storing node: page j holds eight fresh valid addresses and announces j+2 pages *)
+Definition pager_reply (j : nat) : fev :=
+  EValueReply pager_peer false
+    (map (fun t => VB (mk_compact (N.of_nat (8 * j + t)))) (seq 0 8)) (j + 2) [] true.
+
+Definition pager_evs (rounds : nat) : list fev :=
+  EInit [pager_peer] :: EStart [] :: flat_map (fun j => [pager_reply j; EDone 1 []]) (seq 0 rounds).
+
+Definition prm_value (cap : option nat) : fparams :=
+  {| fp_kind := KValue; fp_key_is_self := false; fp_maxres := 8; fp_cap := cap |}.
+
+(* before fac7223 (no cap) the probe bound of finder_probe_bound fails: one peer, 35 probes > 33 *)
+Lemma uncapped_pager_refuted :
+  exists evs, length (nodup N.eq_dec (mentioned evs)) = 1 /\ seeds_of evs = 0 /\
+    f_sched (final_state (prm_value None) evs) > (1 + MAX_VALUE_PAGES) * 1 /\
+    f_sched (final_state (prm_value real_cap) evs) <= (1 + MAX_VALUE_PAGES) * 1.
+Proof.
+  exists (pager_evs 34). vm_compute. repeat split; lia.
+Qed.
+
+Definition seqN (n : nat) : list N := map N.of_nat (seq 0 n).
